@@ -1200,6 +1200,11 @@ class Suspender(Interrupter):
             return aux
 
         if not aux.done: #not done so active
+            # if aux.main is another frame then the aux is running for that frame
+            # and it is not ours to run, complete or deactivate
+            if aux.main and (aux.main is not main) and (aux.main is not self._act.frame):
+                return None
+
             aux.segue()
             aux.recur()
 
